@@ -207,6 +207,14 @@ func Universe(depth int) []Kind {
 	overCmp(&u, b.U128, depth)
 	overCmp(&u, b.Bool, depth)
 	u = append(u, dateKind(), date32Kind(), dateTimeKind(), dateTime64Kind(3), dateTime64Kind(9), intervalKind())
+	if depth >= 2 {
+		// named tuples: elements wrapped in proto.ColNamed, also around columns with a state prefix, a Prepare step
+		// or an inferred definition
+		u = append(u, Tuple(Named(b.U8, "a"), Named(b.Str, "s")),
+			Tuple(Named(LowCardinality(b.Str), "l"), Named(Array(b.U16), "arr")),
+			Tuple(Named(b.EnT8, "e"), Named(b.U16, "n")),
+			Tuple(Named(b.JSON, "j"), Named(Nullable(b.I32), "x")))
+	}
 	return u
 }
 
